@@ -279,6 +279,10 @@ def lean_check(modules, theorems, clean=False, leanchecker=False, gen=None):
             if q.returncode != 0:
                 st.ok = False
     finally:
+        if gen is not None and os.path.realpath(REPO) != "/repo":
+            # the Gen tables were regenerated from another checkout (VERIF_REPO): put the committed ones back while
+            # the lock is still held, so that the working tree of /verif never shows tables of a foreign tree
+            subprocess.run(["git", "-C", VERIF, "checkout", "--", "lean/GtModel/Gen"], capture_output=True)
         lock.close()
     st.build_s = time.time() - t0
     return st
